@@ -35,9 +35,20 @@ def model_intervals(i1, i2, abs_=None, rel=None):
         thr = F(rel) * min(e1 - s1, e2 - s2)
     scale = max(abs(x) for x in (s1, e1, s2, e2, thr, 1))
     ambiguous = abs(inter - thr) <= F(ULP_BAND_REL) * scale and inter != thr
+    # the band exists because a float implementation rounds; when every intermediate quantity (widths, threshold,
+    # intersection) is itself a double, nothing is rounded and a miss of >= 2**-44 (relative) is decided
+    if ambiguous and _representable(e1 - s1, e2 - s2, thr, inter, min(e1, e2), max(s1, s2)) and abs(inter - thr) >= F(1, 2 ** 44) * scale:
+        ambiguous = False
     # an exactly-equal case is decided (true) only if the float computation is exact;
     # callers that use dyadic inputs get exactness, others treat equality as ambiguous
     return (inter >= 0 and inter >= thr), ambiguous, inter == thr
+
+
+def _representable(*fracs):
+    try:
+        return all(F(float(x)) == x for x in fracs)
+    except OverflowError:
+        return False
 
 
 def _dyadic(*xs):
@@ -119,6 +130,8 @@ def model_in_clip(b, cs, ce, m):
     scale = max(abs(x) for x in (s, e, lo, hi, 1))
     band = F(ULP_BAND_REL) * scale
     amb = (abs(e - lo) <= band and e != lo) or (abs(s - hi) <= band and s != hi)
+    if amb and _representable(lo, hi, e - lo, hi - s) and all(x == 0 or abs(x) >= F(1, 2 ** 44) * scale for x in (e - lo, s - hi)):
+        amb = False
     eq = e == lo or s == hi
     return (e > lo and s < hi), amb, eq
 
@@ -356,6 +369,46 @@ def run(ctx):
         ctx.case(("intervals", "random", style, mode, _classify(i1, i2)),
                  {"kind": "intervals", "i1": i1, "i2": i2, "abs": a, "rel": r}, nontrivial=i1 != i2)
         judge_intervals(ctx, i1, i2, a, r)
+
+    # ---- near misses with exact arithmetic: the intersection is the threshold -/+ 2**-k with every quantity a double,
+    # so "at least the threshold" has one right answer however the comparison is coded
+    for _ in range(ctx.scale(1500, 8000)):
+        w1, w2 = rng.choice([0.5, 1.0, 1.5, 2.0, 4.0]), rng.choice([0.5, 1.0, 1.5, 2.0, 4.0])
+        mode = rng.choice(["none", "abs", "rel", "rel"])
+        a = r = None
+        if mode == "abs":
+            a = thr = rng.choice([0.125, 0.25, 0.5])
+        elif mode == "rel":
+            r = rng.choice([0.125, 0.25, 0.5, 0.75, 1.0]); thr = r * min(w1, w2)
+        else:
+            thr = 0.0
+        d = rng.choice([-1, 1, 0]) * 2.0 ** -rng.choice([20, 30, 32, 34, 36, 40, 43])
+        L = thr + d
+        if L > min(w1, w2):
+            L = thr - abs(d)
+        s1 = rng.choice([0.0, 1.0, 2.5])
+        i1 = (s1, s1 + w1); i2 = (s1 + w1 - L, s1 + w1 - L + w2)
+        if i2[0] < 0:
+            continue
+        if rng.random() < 0.5:
+            i1, i2 = i2, i1
+        ctx.case(("intervals", "near_miss_exact", mode, "short" if d < 0 else "over" if d > 0 else "equal"),
+                 {"kind": "intervals", "i1": list(i1), "i2": list(i2), "abs": a, "rel": r}, nontrivial=True)
+        judge_intervals(ctx, i1, i2, a, r)
+    for typ in geoms.TYPES:
+        for _ in range(ctx.scale(40, 200)):
+            cs = rng.choice([0.0, 1.0, 2.5]); ce = cs + rng.choice([1.0, 2.0, 4.0])
+            m = rng.choice([0.0, 0.25, 0.5])
+            d = rng.choice([-1, 1, 0]) * 2.0 ** -rng.choice([20, 30, 32, 36, 40, 43])
+            if rng.random() < 0.5:
+                b = cs + m + d; a = max(b - 0.5, 0.0)            # ends just around (clip start + minimum)
+            else:
+                a = ce - m + d; b = a + 0.5                       # starts just around (clip end - minimum)
+            if not (b > a >= 0):
+                continue
+            gs = geoms.geom_in_box(rng, typ, a, b, 1000.0, 5000.0)
+            ctx.case(("in_clip", typ, "near_miss_exact", "short" if d < 0 else "over" if d > 0 else "equal"), {"kind": "in_clip", "g": gs, "clip": [cs, ce], "m": m})
+            judge_in_clip(ctx, gs, cs, ce, m)
 
     # ---- geometry predicates, all type pairs
     type_pairs = list(itertools.product(geoms.TYPES, repeat=2))
